@@ -396,3 +396,158 @@ func (c *c17Checker) runPrefixSiblings(r *core.Run, rng *core.Rng) bool {
 	}
 	return true
 }
+
+// ---------------------------------------------------------------- fraction of translatable declarations under -ignore-errors
+
+// c17FractionModule: packages with a conversion error, crossed over
+//   - how many of the declarations translate: none, exactly one, half, all but one;
+//   - package doc comment or not, other comments or not;
+//   - one file or three;
+//   - no import, a builtin import (sync), an import of another package of the module.
+//
+// With -ignore-errors the file of each must exist and hold exactly the declarations that translate (possibly
+// none: header and footer only); without the flag nothing is written for any of them.
+func c17FractionModule(k int) *c17Module {
+	m := &c17Module{K: 200 + k, ModPath: fmt.Sprintf("example.com/cli-t/frac.%d", k), byPath: map[string]*c17Pkg{}, lists: map[string]*c17List{}}
+	lib := m.add(&c17Pkg{Dir: "lib", Label: "good", GoodDefs: []string{"Entry"}, Files: map[string]string{"a.go": "package lib\n\nfunc Entry(x uint64) uint64 {\n\treturn x + 1\n}\n"}})
+	fractions := []struct {
+		name      string
+		good, bad int
+	}{{"none", 0, 3}, {"none-single-decl", 0, 1}, {"one", 1, 3}, {"half", 2, 2}, {"all-but-one", 3, 1}}
+	n := 0
+	for _, fr := range fractions {
+		for _, doc := range []bool{false, true} {
+			for _, comments := range []bool{false, true} {
+				for _, nfiles := range []int{1, 3} {
+					for _, imp := range []string{"", "sync", lib.Path} {
+						if fr.good+fr.bad < nfiles && nfiles > 1 {
+							continue
+						}
+						dir := fmt.Sprintf("fr/p%03d", n)
+						name := fmt.Sprintf("p%03d", n)
+						bodyOf := func(i int) string {
+							return c17BadBodies[(n+i)%len(c17BadBodies)].body
+						}
+						use := ""
+						switch imp {
+						case "sync":
+							use = "\tmu := new(sync.Mutex)\n\tmu.Lock()\n\tmu.Unlock()\n"
+						case lib.Path:
+							use = "\tx2 := lib.Entry(x)\n\tif x2 > 100 {\n\t\treturn x2\n\t}\n"
+						}
+						var decls, good, bad []string
+						for i := 0; i < fr.bad; i++ {
+							nm := fmt.Sprintf("Bad%d", i)
+							cm := ""
+							if comments {
+								cm = fmt.Sprintf("// %s cannot be translated.\n", nm)
+							}
+							decls = append(decls, fmt.Sprintf("%sfunc %s(x uint64) uint64 {\n%s%s}\n", cm, nm, use, bodyOf(i)))
+							bad = append(bad, nm)
+						}
+						for i := 0; i < fr.good; i++ {
+							nm := fmt.Sprintf("Good%d", i)
+							cm := ""
+							if comments {
+								cm = fmt.Sprintf("// %s is fine.\n", nm)
+							}
+							// interleave: good declarations go between the bad ones
+							d := fmt.Sprintf("%sfunc %s(x uint64) uint64 {\n%s\treturn x + %d\n}\n", cm, nm, use, i+n)
+							at := (i * 2) % (len(decls) + 1)
+							decls = append(decls[:at], append([]string{d}, decls[at:]...)...)
+							good = append(good, nm)
+						}
+						files := map[string]string{}
+						per := (len(decls) + nfiles - 1) / nfiles
+						for fi := 0; fi < nfiles; fi++ {
+							lo, hi := fi*per, (fi+1)*per
+							if lo > len(decls) {
+								lo = len(decls)
+							}
+							if hi > len(decls) {
+								hi = len(decls)
+							}
+							var b strings.Builder
+							if doc && fi == 0 {
+								fmt.Fprintf(&b, "// Package %s has declarations outside the subset.\n", name)
+							}
+							fmt.Fprintf(&b, "package %s\n\n", name)
+							if imp != "" && hi > lo {
+								fmt.Fprintf(&b, "import %q\n\n", imp)
+							}
+							if comments {
+								b.WriteString("// a comment that belongs to no declaration\n\n")
+							}
+							b.WriteString(strings.Join(decls[lo:hi], "\n"))
+							files[fmt.Sprintf("f%d.go", fi)] = b.String()
+						}
+						p := m.add(&c17Pkg{Dir: dir, Label: "bad", GoodDefs: good, BadDefs: bad, Files: files})
+						p.Shape = fmt.Sprintf("translatable=%s doc=%v comments=%v files=%d import=%q", fr.name, doc, comments, nfiles, imp)
+						n++
+					}
+				}
+			}
+		}
+	}
+	return m
+}
+
+func (c *c17Checker) runFractions(r *core.Run) bool {
+	m := c17FractionModule(0)
+	if err := m.write(filepath.Join(r.Scratch, "c17mod", "frac0")); err != nil {
+		return false
+	}
+	if _, ok := settle(m.Dir, "./..."); !ok {
+		r.Inconclusive("fraction-module-setup-failed")
+		return true
+	}
+	var bad []*c17Pkg
+	for _, p := range m.Pkgs {
+		if p.Label == "bad" {
+			bad = append(bad, p)
+		}
+	}
+	// calibration: each package alone, without the flag, must fail with conversion errors only
+	okLabels := true
+	core.Parallel(len(bad), 16, func(i int) {
+		s := c.solo(m, bad[i], nil, false)
+		rep := parseStderr(s.iv.res.Stderr)
+		if cr, _ := s.iv.crashed(); cr || s.iv.Code != 1 || len(rep.SrcFiles) == 0 || len(rep.LoadFailed) > 0 {
+			okLabels = false
+			r.Set("fraction_calibration_failure", map[string]interface{}{"package": bad[i].Path, "shape": bad[i].Shape, "exit_status": s.iv.Code, "stderr": clip(s.iv.res.Stderr, 800), "sources": bad[i].Files})
+		}
+	})
+	if !okLabels {
+		r.Inconclusive("fraction-module-label-calibration-failed")
+		return true
+	}
+	var scs []c17Scenario
+	flagsets := c17FlagSets()
+	for i, p := range bad {
+		// every package alone with -ignore-errors; some also without, some by import path, some with flags
+		sc := c17Scenario{Class: "fraction-alone", Patterns: []string{"./" + p.Dir}, Ignore: true, Prior: "empty"}
+		if i%4 == 1 {
+			sc.Patterns = []string{p.Path}
+		}
+		if i%5 == 2 {
+			sc.Flags = flagsets[(i/5)%8]
+		}
+		scs = append(scs, sc)
+		if i%6 == 0 {
+			scs = append(scs, c17Scenario{Class: "fraction-alone", Patterns: []string{"./" + p.Dir}, Ignore: false, Prior: "empty"})
+		}
+		if i%7 == 3 {
+			// second run into the same -out: the (possibly declaration-less) file is not rewritten
+			scs = append(scs, c17Scenario{Class: "fraction-alone", Patterns: []string{"./" + p.Dir}, Ignore: true, Prior: "identical"})
+		}
+	}
+	scs = append(scs, c17Scenario{Class: "fraction-all", Patterns: []string{"./..."}, Ignore: true, Prior: "empty"})
+	scs = append(scs, c17Scenario{Class: "fraction-all", Patterns: []string{"./..."}, Ignore: false, Prior: "empty"})
+	scs = append(scs, c17Scenario{Class: "fraction-all", Patterns: []string{"./fr/...", "./lib"}, Ignore: true, Prior: "identical", Flags: flagsets[3]})
+	scs = append(scs, c17Scenario{Class: "fraction-all", Patterns: []string{"./..."}, Ignore: false, Prior: "stale-bad"})
+	core.Parallel(len(scs), 12, func(i int) { c.runScenario(m, scs[i]) })
+	r.Count("fraction_packages", int64(len(bad)))
+	r.Count("fraction_scenarios", int64(len(scs)))
+	r.Count("modules", 1)
+	return true
+}
